@@ -24,7 +24,10 @@ Inductive outcome :=
 | ParamsRejected   (* Run is called and rejects the start parameters *)
 | RanFailed        (* Run is called, the protocol starts and fails / is aborted *)
 | RanSucceeded     (* Run is called, the protocol completes, the new share is stored *)
-| Refused.         (* Execute refuses the request: the session id is already pending *)
+| Refused          (* Execute refuses the request: the session id is already pending *)
+| ConstructorFails. (* the constructor returns an error - the key share cannot be read (file missing,
+                      corrupt, unreadable) or, FROST signing, the tweak is malformed: no process
+                      exists, Coordinator.Execute is never called *)
 
 (* observable events: mutex, share access, extent of Run *)
 Inductive ev := L | U | Get | Store | RunBegin | RunEnd.
@@ -33,12 +36,32 @@ Inductive ev := L | U | Get | Store | RunBegin | RunEnd.
    the processes of a refused request.  [Old] = the code as found. *)
 Inductive variant := Old | New.
 
-(* keygen has no start parameters that could be rejected *)
+Definition is_signing (k : kind) : bool :=
+  match k with EcdsaSigning | FrostSigning => true | _ => false end.
+
+(* keygen has no start parameters that could be rejected; only the signing constructors can fail:
+   NewSigning returns the error of GetKeyshare (tss/*/signing/signing.go), NewResharing goes on with
+   an empty share ("empty key for parties that don't have one"), NewKeygen does not read the share *)
 Definition feasible (k : kind) (o : outcome) : bool :=
   match o, k with
   | ParamsRejected, (EcdsaKeygen | FrostKeygen) => false
+  | ConstructorFails, k => is_signing k
   | _, _ => true
   end.
+
+(* the state of the key-share file when the constructor runs *)
+Inductive share := Readable | Missing | Corrupt | Unreadable.
+
+(* what can happen on a store in state sh: without a readable share a signing constructor fails;
+   keygen and resharing sessions take their usual courses *)
+Definition feasible_in (sh : share) (k : kind) (o : outcome) : bool :=
+  feasible k o &&
+  (negb (is_signing k) ||
+   match sh, o with
+   | Readable, _ => true
+   | _, ConstructorFails => true
+   | _, _ => false
+   end).
 
 Definition run_called (o : outcome) : bool :=
   match o with ParamsRejected | RanFailed | RanSucceeded => true | _ => false end.
@@ -73,6 +96,7 @@ Definition stop_events (v : variant) (k : kind) (ran : bool) : list ev :=
 Definition session_events (v : variant) (k : kind) (o : outcome) : list ev :=
   ctor_events k ++
   match o with
+  | ConstructorFails => []     (* the constructor's own events were everything: signing [L; Get; U] *)
   | Refused => match v with Old => [] | New => stop_events v k false end
   | _ => (if run_called o then run_events k o else []) ++ stop_events v k (run_called o)
   end.
@@ -130,6 +154,10 @@ Definition sessions_events (v : variant) (ss : list (kind * outcome)) : list ev 
 
 Definition all_feasible (ss : list (kind * outcome)) : bool :=
   forallb (fun s => feasible (fst s) (snd s)) ss.
+
+(* sessions together with the state of the store each one finds *)
+Definition all_feasible_in (ss : list (share * (kind * outcome))) : bool :=
+  forallb (fun s => feasible_in (fst s) (fst (snd s)) (snd (snd s))) ss.
 
 Definition sequence_ok (l : list ev) : bool :=
   mres_free (mrun false l) && Nat.eqb (count is_L l) (count is_U l).
